@@ -97,7 +97,14 @@ func (C10) Generate(c *Ctx, r *Rand, index int) *Scenario {
 	out := "yaml"
 	switch {
 	case variant == 2:
-		out = Pick(rs, []string{"json0", "json0", "yaml", "props"})
+		out = Pick(rs, []string{"json0", "json0", "yaml", "props", "same", "same", "same"})
+		if out == "same" {
+			// the format's own encoder (with whatever state it keeps from one document to the next)
+			out = format
+			if format != "base64" && format != "uri" && rs.Chance(1, 3) {
+				out = "auto" // chosen by yq from the first file's extension
+			}
+		}
 	case e.Family == "provenance":
 		out = "json0"
 	default:
@@ -117,7 +124,9 @@ func (C10) Generate(c *Ctx, r *Rand, index int) *Scenario {
 		argv = append(argv, "-o=json")
 	case "props":
 		argv = append(argv, "-o=props")
-	case "xml", "lua", "shell", "csv", "tsv":
+	case "auto":
+		// no -o at all
+	case "xml", "lua", "shell", "csv", "tsv", "toml", "base64", "uri":
 		// encoders with a narrower domain (and some with state of their own): a result they refuse
 		// fails the per-document reference in the same way
 		argv = append(argv, "-o="+out)
